@@ -28,7 +28,7 @@ Dims == [
   ak       |-> <<"ok", "offCurve", "zero", "swapped">>,
   mut      |-> <<"none", "header", "body", "ak", "qeReport", "authData", "sig", "qeSig">>,
   bind     |-> <<"ok", "wrongHash", "nonZeroTail">>,
-  qeSigner |-> <<"leaf", "inter", "foreign">>,
+  qeSigner |-> <<"leaf", "otherLeaf", "inter", "foreign">>,   \* otherLeaf: the platform's other PCK key (valid for a quote embedding that leaf)
   authLen  |-> <<"n32", "n0", "big">>,
   extra    |-> <<"none", "some">>,
   \* chain and trust (C02)
@@ -36,34 +36,38 @@ Dims == [
   interPki |-> <<"A", "B">>,
   rootPki  |-> <<"A", "B">>,
   pool     |-> <<"A", "B", "AB", "empty", "nil">>,
-  leafRole |-> <<"pck", "wrongCN", "pckByRoot", "caAsLeaf">>,
+  leafRole |-> <<"pck", "wrongCN", "pckByRoot", "caAsLeaf", "tcbSignByRoot">>,
+  leafId   |-> <<"l1", "l2">>,                 \* which of the platform's two PCK leaves the chain carries (both honest)
+  interSlot |-> <<"inter", "root">>,           \* certificate carried in the intermediate position of the chain
+  src      |-> <<"gen", "intel">>,             \* generated world / the genuine Intel sample quote with its recorded collateral
   nBlocks  |-> <<"n3", "n2", "n4">>,
   trailer  |-> <<"none", "nul", "nulnul", "junk">>,
   pemType  |-> <<"cert", "other">>,
   interCN  |-> <<"platform", "processor">>,
   \* collateral authenticity (C03), one group per document
-  tcbSigner   |-> <<"ok", "pkiB", "wrongRole", "rootDirect", "selfSigned">>,
+  tcbSigner   |-> <<"ok", "pkiB", "wrongRole", "rootDirect", "selfSigned", "lookalikeSameSerial">>,
   tcbOver     |-> <<"member", "wholeBody", "reencoded">>,
   tcbAlter    |-> <<"none", "memberBit", "sigBit">>,
   tcbExtra    |-> <<"none", "dupBefore", "dupAfter", "caseBefore", "caseAfter", "foldAfter">>,
   tcbHdr      |-> <<"ok", "missing", "duplicated", "empty", "swapped", "threeCerts">>,
-  tcbMeta     |-> <<"ok", "wrongId", "wrongVersion", "noLevels", "memberMissing">>,
-  qeSignerDoc |-> <<"ok", "pkiB", "wrongRole", "rootDirect", "selfSigned">>,
+  tcbMeta     |-> <<"ok", "wrongId", "wrongVersion", "noLevels", "levelsOmitted", "memberMissing">>,
+  qeSignerDoc |-> <<"ok", "pkiB", "wrongRole", "rootDirect", "selfSigned", "lookalikeSameSerial">>,
+  sharedSigner |-> <<"distinct", "shared">>,   \* one signing certificate (byte-identical issuer chains) for both documents, as Intel does
   qeOver      |-> <<"member", "wholeBody", "reencoded">>,
   qeAlter     |-> <<"none", "memberBit", "sigBit">>,
   qeExtra     |-> <<"none", "dupBefore", "dupAfter", "caseBefore", "caseAfter", "foldAfter">>,
   qeHdr       |-> <<"ok", "missing", "duplicated", "empty", "swapped", "threeCerts">>,
-  qeMeta      |-> <<"ok", "wrongId", "wrongVersion", "noLevels", "memberMissing">>,
+  qeMeta      |-> <<"ok", "wrongId", "wrongVersion", "noLevels", "levelsOmitted", "memberMissing">>,
   \* signed content (C04, C07; refined in TcbLevels.tla)
   tcbContent |-> <<"ok", "laterMatch", "fmspcUpper", "fmspc", "pceid", "mrsigner", "attrs",
                    "outOfDate", "revoked", "swHardening", "configNeeded", "noLevel">>,
-  modBranch  |-> <<"none", "modOk", "modOutOfDate", "modMissing", "modNoLevel">>,
+  modBranch  |-> <<"none", "modOk", "modOutOfDate", "modMissing", "modNoLevel", "modOmitted">>,
   qeContent  |-> <<"ok", "laterMatch", "maskedDiff", "misc", "miscHigh", "attrs", "mrsigner", "prodid",
                    "outOfDate", "revoked", "swHardening", "noLevel">>,
   \* revocation (C05)
   pckCrlRev     |-> <<"none", "nearMiss", "many", "leaf", "leafFirst", "leafAmongMany">>,
   rootCrlRev    |-> <<"none", "nearMiss", "inter", "tcbSigner", "qeSigner">>,
-  pckCrlSigner  |-> <<"inter", "root", "rootNamedInter", "foreignNamed", "otherPki">>,
+  pckCrlSigner  |-> <<"inter", "root", "rootNamedInter", "foreignNamed", "otherPki", "foreignWithHeader">>,
   rootCrlSigner |-> <<"root", "inter", "interNamedRoot", "foreignNamed">>,
   pckCrlFetch   |-> <<"ok", "error", "garbage", "otherIssuer", "hdrMissing">>,
   rootCrlDps    |-> <<"ok", "errorThenOk", "garbageThenOk", "none", "error", "garbage", "errorError">>,
@@ -110,14 +114,17 @@ OptBase == IF OptSet = "levels" THEN Levels ELSE Levels \cup {Conflict}
 Opts == { [gc |-> b.gc, cr |-> b.cr, now |-> n, entry |-> e] :
             b \in OptBase, n \in NowVals, e \in {"raw", "msg"} }
 \* the wall clock cannot realise a time fault
-Realisable(w, o) == o.now = "unset" => w.time = "none"
+Realisable(w, o) == /\ (o.now = "unset" => w.time = "none")
+                    /\ (w.src = "intel" => /\ o.now = "set"                       \* judged at its reference time
+                                           /\ \A d \in DimNames \ {"src", "pool"} : w[d] = Baseline[d])
 
 (* ---------------------------------------------------------------------------------- *)
 (* Helpers over a world.                                                                 *)
 
-Home(w)  == w.leafPki                      \* the PKI that issued the leaf and the honest collateral
+Home(w)  == IF w.src = "intel" THEN "I" ELSE w.leafPki      \* the PKI that issued the leaf and the honest collateral
 InPool(p, w) == \/ (p = "A" /\ w.pool \in {"A", "AB"})
                 \/ (p = "B" /\ w.pool \in {"B", "AB"})
+                \/ (p = "I" /\ w.pool = "nil")             \* no pool given: the embedded Intel root, and only it
 IssuedByInter(w) == w.leafRole \in {"pck", "wrongCN"}
 
 \* time dimension
@@ -134,7 +141,11 @@ Gov == [leaf |-> "PckCertChain", inter |-> "PckCertChain", root |-> "PckCertChai
         pckCrlNext |-> "PckCrl", pckCrlSigner |-> "PckCrl", pckCrlRoot |-> "PckCrl",
         rootCrlNext |-> "RootCaCrl"]
 \* artefact a is outside its validity at its governing clock
-Expired(w, a)  == TimeArt(w) = a /\ TimePos(w) = "after"
+\* With one shared signing certificate the same certificate is the tcbSigner and the qeSigner artefact: when the time dimension
+\* puts its expiry E between the two clocks (governing clock before/at E, hence the other clock after E) it is expired at the other clock.
+SignerTwin(a) == IF a = "qeSigner" THEN "tcbSigner" ELSE IF a = "tcbSigner" THEN "qeSigner" ELSE "none"
+Expired(w, a)  == \/ (TimeArt(w) = a /\ TimePos(w) = "after")
+                  \/ (w.sharedSigner = "shared" /\ SignerTwin(a) # "none" /\ TimeArt(w) = SignerTwin(a) /\ TimePos(w) \in {"before", "at"})
 NotYet(w, a)   == TimeArt(w) = a /\ TimePos(w) = "preNB"
 \* which artefacts an option level needs at all
 Needs(o, a) == CASE a \in {"leaf","inter","root"} -> TRUE
@@ -151,7 +162,8 @@ DpSeq(w) == CASE w.rootCrlDps = "ok" -> <<"ok">>
               [] w.rootCrlDps = "garbage" -> <<"garbage">>
               [] w.rootCrlDps = "errorError" -> <<"error", "error">>
 
-GoodTcb(w) == w.tcbContent \in {"ok", "laterMatch", "fmspcUpper"} /\ w.modBranch \in {"none", "modOk"}
+\* (the TCB Info recorded in the repository does not contain a level matching the sample quote's platform: "no matching TCB level")
+GoodTcb(w) == w.tcbContent \in {"ok", "laterMatch", "fmspcUpper"} /\ w.modBranch \in {"none", "modOk"} /\ w.src = "gen"
 GoodQe(w)  == w.qeContent \in {"ok", "laterMatch", "maskedDiff"}
 
 (* ---------------------------------------------------------------------------------- *)
@@ -163,8 +175,8 @@ N01(w, o) == /\ w.qsig = "ok" /\ w.ak = "ok" /\ w.mut = "none"
              /\ w.bind = "ok" /\ w.qeSigner = "leaf"
 
 \* C02: leaf is a PCK-role certificate that chains through the carried intermediate to the pool
-N02(w, o) == /\ w.leafRole = "pck"
-             /\ w.interPki = Home(w)
+N02(w, o) == /\ w.leafRole = "pck" /\ w.interSlot = "inter"
+             /\ (w.src = "gen" => w.interPki = Home(w))
              /\ InPool(Home(w), w)
 
 \* C03: collateral authentic, per document; values are those of the signed member
@@ -197,7 +209,8 @@ Necessary(w, o) == N01(w, o) /\ N02(w, o) /\ N03(w, o) /\ N04(w, o) /\ N05(w, o)
 \* C11: the honest worlds (baseline and its honest variants) must be accepted
 Honest(w, o) ==
   /\ N01(w, o)
-  /\ w.leafRole = "pck" /\ w.interPki = Home(w) /\ w.rootPki = Home(w) /\ InPool(Home(w), w)
+  /\ w.leafRole = "pck" /\ w.interSlot = "inter" /\ InPool(Home(w), w)
+  /\ (w.src = "gen" => w.interPki = Home(w) /\ w.rootPki = Home(w))
   /\ w.nBlocks = "n3" /\ w.trailer \in {"none", "nul"} /\ w.pemType = "cert" /\ w.interCN = "platform"
   /\ ~(o.cr /\ ~o.gc)
   /\ o.gc => /\ \A d \in {"tcbSigner", "qeSignerDoc"} : w[d] = "ok"
@@ -234,7 +247,7 @@ ResponseOk(w, o, s, ov, al, ex, h, revoked) ==
   /\ (w[s] = "pkiB" => InPool(IF Home(w) = "A" THEN "B" ELSE "A", w))
   /\ w[ov] = "member" /\ w[al] = "none"
   /\ w[ex] # "dupAfter"                        \* the exact-key member that is signature-checked is then the unsigned sibling
-  /\ (o.cr => /\ w.rootCrlSigner = "root" /\ w.rootPki = Home(w) /\ w[s] = "ok"
+  /\ (o.cr => /\ w.rootCrlSigner = "root" /\ (w.src = "gen" => w.rootPki = Home(w)) /\ w[s] = "ok"
               /\ w.rootCrlRev # revoked)
 
 StageResult(st, w, o) ==
@@ -262,6 +275,7 @@ StageResult(st, w, o) ==
          ELSE IF DpsFirstSuccess(w) THEN "ok" ELSE "fail"
     [] st = "chain" ->
          IF /\ w.interCN = "platform"                        \* DEV: a Processor-CA chain is rejected here
+            /\ w.interSlot = "inter"                         \* the certificate in the intermediate position must be named Platform CA
             /\ w.interPki = w.rootPki                        \* intermediate signed by the *embedded* root (DEV: stricter than C02)
             /\ w.leafRole = "pck" /\ w.leafPki = w.interPki
             /\ InPool(Home(w), w)                            \* x509 path to the pool; nil pool = Intel's root, never a generated one
